@@ -123,6 +123,27 @@ def snapshot(tag, inject=True, only=None):
 LANE = os.environ.get("VERIF_LANE", "")
 
 
+class target_lock:
+    """Exclusive lock on a build directory.  cargo's unit directories do not depend on the path of a
+    path dependency: two checks that build different snapshots into one target directory at the same
+    time would overwrite (and then verify / run) each other's artifacts.  Build + use is one critical
+    section."""
+
+    def __init__(self, target_dir):
+        self.path = os.path.join(target_dir, ".verif-lock")
+
+    def __enter__(self):
+        import fcntl
+        self.f = open(self.path, "w")
+        fcntl.flock(self.f, fcntl.LOCK_EX)
+        return self
+
+    def __exit__(self, *a):
+        import fcntl
+        fcntl.flock(self.f, fcntl.LOCK_UN)
+        self.f.close()
+
+
 def kani_target_dir():
     # one build directory per lane: cargo's unit directories do not depend on the path of a path
     # dependency, so two snapshots built concurrently into one target dir overwrite each other's artifacts
@@ -211,14 +232,15 @@ def run_kani(src, harnesses, log, harness_timeout=300, extra=None, overall_timeo
     for h in harnesses:
         cmd += ["--harness", h]
     # never trust cached artifacts of the crate under verification (dependencies stay cached)
-    import glob
-    for fp in glob.glob(os.path.join(kani_target_dir(), "kani", "*", "debug", "build", "svgbob")) + \
-            glob.glob(os.path.join(kani_target_dir(), "kani", "*", "debug", ".fingerprint", "svgbob-*")):
-        shutil.rmtree(fp, ignore_errors=True)
     env = {"VERIF_THOROUGH": "1"} if thorough else None
     if not thorough:
         ENV.pop("VERIF_THOROUGH", None)
-    rc, text, wall = run(cmd, cwd=src, timeout=overall_timeout, out=log, env=env)
+    with target_lock(kani_target_dir()):
+        import glob
+        for fp in glob.glob(os.path.join(kani_target_dir(), "kani", "*", "debug", "build", "svgbob")) + \
+                glob.glob(os.path.join(kani_target_dir(), "kani", "*", "debug", ".fingerprint", "svgbob-*")):
+            shutil.rmtree(fp, ignore_errors=True)
+        rc, text, wall = run(cmd, cwd=src, timeout=overall_timeout, out=log, env=env)
     reap_orphan_solvers()
     recs = parse_kani_output(text)
     return rc, text, wall, recs
